@@ -317,7 +317,7 @@ class Mode(LogMixin):
 
         Returns true if the mode is running. Otherwise false.
         """
-        if not self._active:
+        if not self._active and not self._starting:
             return False
 
         if callback:
@@ -328,9 +328,10 @@ class Mode(LogMixin):
             # mode is still running
             return True
 
-        if self._start_completing:
-            # mode_start() has not run yet. stop as soon as the start is complete so that mode_start() and
-            # mode_stop() are called in order and nothing gets registered after the clean-up
+        if self._starting or self._start_completing:
+            # mode_<name>_starting is still held or mode_start() has not run yet. stop as soon as the start is
+            # complete so that mode_start() and mode_stop() are called in order and nothing gets registered after
+            # the clean-up
             if self._stop_after_start is None:
                 self._stop_after_start = kwargs
             return True
